@@ -923,7 +923,13 @@ def _s_rstrip(I, s, a, kw):
 def _s_isdigit(I, s, a, kw):
     if isinstance(s, str):
         return s.isdigit()
-    raise Unsupported('isdigit on a symbolic string')
+    # uninterpreted; what is known: a string whose stripped form consists of digits is accepted by int()
+    isd = z3.Function('str_isdigit', z3.StringSort(), z3.BoolSort())
+    strip = z3.Function('str_strip', z3.StringSort(), z3.StringSort())
+    x = z3.String('ax_ds')
+    I.ctx.add_axiom(z3.ForAll([x], z3.Implies(isd(strip(x)), int_ok(x)), patterns=[isd(strip(x))]),
+                    'A-STR:str.isdigit uninterpreted; s.strip().isdigit() implies int(s) succeeds')
+    return I.mk(isd(I.z(s)), 'bool')
 
 
 def _s_encode(I, s, a, kw):
